@@ -692,6 +692,10 @@ func (p *parser) readEqToken(token []byte) {
 
 func (p *parser) readEqList() (list []any) {
 	p.pos++
+	if p.nextNonSpace() == ']' { // an empty list as written for ConstList([]any{})
+		p.pos++
+		return []any{}
+	}
 List:
 	for p.pos < len(p.buf) {
 		eq := p.readEq()
